@@ -352,6 +352,7 @@ func HarnessC13AfterRejectedMessage() {
 func HarnessC13FullDuplexStream() {
 	proto := nondetChoice("proto", 3)
 	handler := NewBidiStreamHandler("/pkg.Svc/Method", func(ctx context.Context, s *BidiStream[[]byte, []byte]) error {
+		s.ResponseHeader().Set("X-Stream", "s1")
 		for {
 			m, err := s.Receive()
 			if err != nil {
@@ -386,8 +387,12 @@ func HarnessC13FullDuplexStream() {
 			sendErr = err
 		}
 	}()
+	var earlyHeader string
 	go func() {
 		defer wg.Done()
+		// asking for the response headers first must wait for them, not
+		// hand out a map the request goroutine is still going to fill
+		earlyHeader = stream.ResponseHeader().Get("X-Stream")
 		for {
 			m, err := stream.Receive()
 			if err != nil {
@@ -405,6 +410,7 @@ func HarnessC13FullDuplexStream() {
 	wg.Wait()
 	check(sendErr == nil && recvErr == nil, "sending and receiving concurrently on one full-duplex stream both succeed")
 	check(len(got) == 2 && got[0] == x^0xFF && got[1] == y^0xFF, "the echoes arrive intact and in order while the sender is still sending")
+	check(earlyHeader == "s1", "response headers asked for before the first Receive are the handler's")
 	_ = stream.CloseResponse()
 	check(verifQuiesce() == 0, "no goroutine remains after the stream")
 }
